@@ -654,6 +654,28 @@ def rule_tab_container(ctx):
                 break
         ctx.check(bad is None, R, "from_NoteContainer[%s]" % flabel, f.where(), "tablature.from_NoteContainer(<%s>, width) for %d widths" % (flabel, n), bad or "")
 
+    # an empty container has one fingering, the empty one (it is the rest from_Bar draws): string lines without frets
+    summ = base_summaries(repo)
+    summ[key] = lambda it, a, k, n: []   # what find_fingering answers for no notes
+    bad, n = None, 0
+    for width in (24, 33, 40, 80):
+        for form, mk in (("NoteContainer()", lambda: AObj(nci, {"notes": []}, name="cont")), ("[]", lambda: [])):
+            try:
+                paths = run_method(repo, f, lambda: [mk(), width, tuning_obj(repo, strings)], summaries=summ, max_depth=30)
+            except CannotDecide as e:
+                raise AnalysisError("tablature.from_NoteContainer(<empty>, width=%d): %s" % (width, e))
+            n += 1
+            if len(paths) != 1 or paths[0].kind != "return" or not isinstance(paths[0].value, str):
+                bad = "%s at width %d: outcome %s -- a container without notes is a rest, not a chord nobody can finger" % (form, width, [(p.kind, short(repr(p.value), 60)) for p in paths])
+                break
+            lines = paths[0].value.split("\n")
+            if len(lines) != len(strings) or len({len(x) for x in lines}) != 1 or any(c.isdigit() for x in lines for c in x[x.find("||") + 2:]):
+                bad = "%s at width %d renders to %r" % (form, width, lines)
+                break
+        if bad:
+            break
+    ctx.check(bad is None, R, "from_NoteContainer[empty]", f.where(), "tablature.from_NoteContainer(<no notes>, width) in %d calls" % n, bad or "")
+
 
 def rule_tab_bar(ctx):
     R = "R-C20-T"
